@@ -788,4 +788,188 @@ theorem sort_spec {cfg : Cfg} (hs : CfgStd cfg) {lt : α → α → Bool} (ho : 
     rw [List.append_nil] at h2
     exact h2.trans (newWithData_perm hs.toCfgLayout.left_gt _ vs)
 
+/-! ## Part 4: the repaired configuration (`parent i = (i-1)/2`, `pop` sifts up) -/
+
+structure CfgRepaired (cfg : Cfg) : Prop extends CfgLayout cfg where
+  parent_eq : ∀ i, cfg.parent i = (i - 1) / 2
+  siftUp : cfg.popSiftsUp = true
+
+theorem CfgRepaired.ok {cfg : Cfg} (hr : CfgRepaired cfg) : CfgOK cfg :=
+  ⟨fun i hi => by rw [hr.parent_eq]; omega, hr.toCfgLayout.left_gt⟩
+
+/-- `pushUp`'s loop invariant: every parent/child pair is in order except possibly the pair above
+`j`, and the children of `j` are not smaller than `j`'s parent -/
+def UpAlmost (lt : α → α → Bool) (h : H α) (j : Nat) : Prop :=
+  (∀ k c, (c = 2 * k + 1 ∨ c = 2 * k + 2) → c < h.len → c ≠ j → lt (h.get c) (h.get k) = false) ∧
+  (∀ c, (c = 2 * j + 1 ∨ c = 2 * j + 2) → c < h.len → 0 < j → lt (h.get c) (h.get ((j - 1) / 2)) = false)
+
+theorem heap_upAlmost {lt : α → α → Bool} (ho : OrderOK lt) (h : H α) (hh : HeapFrom lt h 0) (j : Nat) :
+    UpAlmost lt h j := by
+  refine ⟨fun k c hc hcl _ => hh k (Nat.zero_le _) c hc hcl, fun c hc hcl hj => ?_⟩
+  have h1 := hh ((j - 1) / 2) (Nat.zero_le _) j (by omega) (by omega)
+  have h2 := hh j (Nat.zero_le _) c hc hcl
+  exact ho.trans h1 h2
+
+theorem upAlmost_swap {lt : α → α → Bool} (ho : OrderOK lt) (h : H α) (j : Nat) (hj0 : 0 < j)
+    (hj : j < h.len) (hA : UpAlmost lt h j) (hlt : lt (h.get j) (h.get ((j - 1) / 2)) = true) :
+    UpAlmost lt (h.swap j ((j - 1) / 2)) ((j - 1) / 2) := by
+  have hp : (j - 1) / 2 < h.len := by omega
+  have gs : ∀ x, (h.swap j ((j - 1) / 2)).get x =
+      if x = (j - 1) / 2 then h.get j else if x = j then h.get ((j - 1) / 2) else h.get x :=
+    fun x => get_swap h x hj hp
+  have hpj := ho.asymm hlt
+  refine ⟨?_, ?_⟩
+  · intro k c hc hcl hcp
+    rw [swap_len] at hcl
+    by_cases hkp : k = (j - 1) / 2
+    · rw [gs k, if_pos hkp]
+      by_cases hcj : c = j
+      · rw [gs c, if_neg hcp, if_pos hcj]; exact hpj
+      · rw [gs c, if_neg hcp, if_neg hcj]
+        exact ho.trans hpj (hA.1 _ c (hkp ▸ hc) hcl hcj)
+    · by_cases hkj : k = j
+      · rw [gs k, if_neg hkp, if_pos hkj, gs c, if_neg hcp, if_neg (by omega)]
+        exact hA.2 c (hkj ▸ hc) hcl hj0
+      · have hcj : c ≠ j := by omega
+        rw [gs k, if_neg hkp, if_neg hkj, gs c, if_neg hcp, if_neg hcj]
+        exact hA.1 k c hc hcl hcj
+  · intro c hc hcl hp0
+    rw [swap_len] at hcl
+    have hpp : lt (h.get ((j - 1) / 2)) (h.get (((j - 1) / 2 - 1) / 2)) = false :=
+      hA.1 _ _ (by omega) hp (by omega)
+    rw [gs (((j - 1) / 2 - 1) / 2), if_neg (by omega), if_neg (by omega)]
+    by_cases hcj : c = j
+    · rw [gs c, if_neg (by omega), if_pos hcj]; exact hpp
+    · rw [gs c, if_neg (by omega), if_neg hcj]
+      exact ho.trans hpp (hA.1 _ c hc hcl hcj)
+
+/-- **`pushUp` with the correct parent index restores heap order** -/
+theorem pushUp_heap {cfg : Cfg} (hr : CfgRepaired cfg) {lt : α → α → Bool} (ho : OrderOK lt) :
+    ∀ (fuel : Nat) (h : H α) (j : Nat), j < fuel → j < h.len → UpAlmost lt h j →
+      HeapFrom lt (pushUp cfg lt fuel h j).1 0 := by
+  intro fuel
+  induction fuel with
+  | zero => intro h j hf; omega
+  | succ f ih =>
+    intro h j hf hj hA
+    simp only [pushUp]
+    by_cases h0 : j > 0
+    · rw [if_pos h0, hr.parent_eq]
+      cases hc : lt (h.get j) (h.get ((j - 1) / 2)) with
+      | false =>
+        simp only [Bool.not_false, if_true]
+        intro k _ c hcc hcl
+        by_cases hcj : c = j
+        · have : k = (j - 1) / 2 := by omega
+          rw [hcj, this]; exact hc
+        · exact hA.1 k c hcc hcl hcj
+      | true =>
+        simp only [Bool.not_true, Bool.false_eq_true, if_false]
+        exact ih _ _ (by omega) (by rw [swap_len]; omega) (upAlmost_swap ho h j h0 hj hA hc)
+    · rw [if_neg h0]
+      intro k _ c hcc hcl
+      exact hA.1 k c hcc hcl (by omega)
+
+/-- `Add` preserves heap order (repaired configuration) -/
+theorem add_heap {cfg : Cfg} (hr : CfgRepaired cfg) {lt : α → α → Bool} (ho : OrderOK lt) (h : H α)
+    (v : α) (hh : HeapFrom lt h 0) : HeapFrom lt (add cfg lt h v).1 0 := by
+  simp only [add]
+  set h0 : H α := { h with data := h.data ++ [v] } with hh0
+  have hlen0 : h0.len = h.len + 1 := by simp [hh0, H.len]
+  have hget0 : ∀ k, k < h.len → h0.get k = h.get k := by
+    intro k hk; simp only [H.len] at hk
+    simp [hh0, H.get, List.getD_eq_getElem?_getD, List.getElem?_append_left hk]
+  refine pushUp_heap hr ho _ _ _ (Nat.lt_succ_self _) (by rw [report_len, hlen0]; omega) ⟨?_, ?_⟩
+  · intro k c hc hcl hcn
+    rw [report_len, hlen0] at hcl
+    rw [report_get, report_get, hget0 c (by omega), hget0 k (by omega)]
+    exact hh k (Nat.zero_le _) c hc (by omega)
+  · intro c hc hcl _
+    rw [report_len, hlen0] at hcl; omega
+
+theorem pushDown_noop {cfg : Cfg} (hs : CfgLayout cfg) (lt : α → α → Bool) (h : H α) (i : Nat)
+    (hN : NodeOK lt h i) : ∀ fuel, pushDown cfg lt fuel h i = (h, i) := by
+  intro fuel
+  cases fuel with
+  | zero => rfl
+  | succ f =>
+    rw [pushDown_succ, hs.left_eq]
+    by_cases hlc : 2 * i + 1 < h.len
+    · rw [if_pos hlc]
+      have hm : minIdx cfg lt h i = i := by
+        simp only [minIdx, hs.left_eq, hs.right_eq, hN _ (Or.inl rfl) hlc, Bool.false_eq_true, if_false]
+        by_cases hrc : 2 * i + 1 + 1 < h.len
+        · simp [hN _ (Or.inr rfl) hrc]
+        · simp [hrc]
+      rw [if_pos hm]
+    · rw [if_neg hlc]
+
+/-- **`pop(i)` for every `i` preserves heap order** (repaired configuration: sift down, and sift up
+if the element did not move) -/
+theorem pop_heap {cfg : Cfg} (hr : CfgRepaired cfg) {lt : α → α → Bool} (ho : OrderOK lt) (h : H α)
+    (i : Nat) (hi : i < h.len) (hh : HeapFrom lt h 0) : HeapFrom lt (pop cfg lt h i).1 0 := by
+  rw [pop_eq]
+  by_cases hn : h.len - 1 = 0
+  · rw [if_pos hn]; intro k _ c _ hcl; simp [H.len] at hcl
+  rw [if_neg hn]
+  have hl : h.len - 1 < h.len := by omega
+  have h3len : (popCut h i).len = h.len - 1 := popCut_len h i
+  have h3get : ∀ k, k < h.len - 1 → (popCut h i).get k = if k = i then h.get (h.len - 1) else h.get k := by
+    intro k hk
+    rw [popCut_get h i k hk, get_swap h k hi hl, if_neg (by omega)]
+  -- heap order of `h` through two levels
+  have h2lev : ∀ p j c, (j = 2 * p + 1 ∨ j = 2 * p + 2) → (c = 2 * j + 1 ∨ c = 2 * j + 2) → c < h.len →
+      lt (h.get c) (h.get p) = false := fun p j c hj hc hcl =>
+    ho.trans (hh p (Nat.zero_le _) j hj (by omega)) (hh j (Nat.zero_le _) c hc hcl)
+  by_cases hB : 0 < i ∧ i < h.len - 1 ∧ lt ((popCut h i).get i) ((popCut h i).get ((i - 1) / 2)) = true
+  · -- the moved element is smaller than its new parent: `pushDown` does nothing, `pushUp` repairs
+    obtain ⟨hi0, hin, hlt⟩ := hB
+    have hlt' : lt (h.get (h.len - 1)) (h.get ((i - 1) / 2)) = true := by
+      rw [h3get i hin, if_pos rfl, h3get _ (by omega), if_neg (by omega)] at hlt; exact hlt
+    have hN : NodeOK lt (popCut h i) i := by
+      intro c hc hcl
+      rw [h3len] at hcl
+      rw [h3get c hcl, if_neg (by omega), h3get i hin, if_pos rfl]
+      exact ho.trans (ho.asymm hlt') (h2lev ((i - 1) / 2) i c (by omega) hc (by omega))
+    rw [pushDown_noop hr.toCfgLayout lt _ i hN]
+    simp only [hr.siftUp, Bool.true_and, decide_true, h3len, hin]
+    simp only [if_true]
+    refine pushUp_heap hr ho _ _ _ (Nat.lt_succ_self _) (by rw [h3len]; exact hin) ⟨?_, ?_⟩
+    · intro k c hc hcl hci
+      by_cases hki : k = i
+      · subst hki; exact hN c hc hcl
+      · rw [h3len] at hcl
+        rw [h3get c hcl, if_neg hci, h3get k (by omega), if_neg hki]
+        exact hh k (Nat.zero_le _) c hc (by omega)
+    · intro c hc hcl _
+      rw [h3len] at hcl
+      rw [h3get c hcl, if_neg (by omega), h3get _ (by omega), if_neg (by omega)]
+      exact h2lev ((i - 1) / 2) i c (by omega) hc (by omega)
+  · -- otherwise `pushDown` restores heap order; a following `pushUp` on a heap keeps it
+    have hA : Almost lt (popCut h i) 0 i := by
+      refine ⟨?_, ?_⟩
+      · intro k _ hki c hc hcl
+        rw [h3len] at hcl
+        by_cases hci : c = i
+        · have hk : k = (i - 1) / 2 := by omega
+          have : ¬ lt ((popCut h i).get i) ((popCut h i).get ((i - 1) / 2)) = true :=
+            fun e => hB ⟨by omega, by omega, e⟩
+          rw [hci, hk]
+          exact Bool.not_eq_true _ ▸ this
+        · rw [h3get c hcl, if_neg hci, h3get k (by omega), if_neg hki]
+          exact hh k (Nat.zero_le _) c hc (by omega)
+      · intro p _ hp c hc hcl
+        rw [h3len] at hcl
+        rw [h3get c hcl, if_neg (by omega), h3get p (by omega), if_neg (by omega)]
+        exact h2lev p i c hp hc (by omega)
+    have h4 := pushDown_heap hr.toCfgLayout ho (popCut h i).len (popCut h i) i 0 (by omega) (Nat.zero_le _) hA
+    simp only
+    split
+    · rename_i hu
+      simp only [Bool.and_eq_true, decide_eq_true_eq] at hu
+      have hlen4 := pushDown_len hr.toCfgLayout.left_gt lt (popCut h i).len (popCut h i) i
+      exact pushUp_heap hr ho _ _ _ (Nat.lt_succ_self _) (by rw [hlen4]; exact hu.2.2)
+        (heap_upAlmost ho _ h4 i)
+    · exact h4
+
 end MdsVerif.Proofs.Heapq
